@@ -87,7 +87,10 @@ def ship_races(c):
     c.extra["ship_access_summaries"] = sum(len(o) for ops in by.values() for o in ops.values())
     for name, lst in sorted(cands.items()):
         confirmed = 0
-        for ctx, a, b, p1, p2 in sorted(lst)[:3]:
+        # distinct (context, operation pair) combinations, pairs of different operations first (an operation racing with
+        # itself often turns into a no-op for the second caller); at most 6 combinations per location
+        combos = sorted({(ctx, a, b) for ctx, a, b, _, _ in lst}, key=lambda t: (t[1] == t[2], t))
+        for ctx, a, b in combos[:6]:
             params = ["-param", "a=%d" % SHIP_OPS.index(a), "-param", "b=%d" % SHIP_OPS.index(b), "-param", "state=" + ctx[0],
                       "-param", "role=" + ctx[1], "-param", "timertype=" + ctx[2]]
             res2, meta2 = lib.run_engine("ship", ["H_C20_ShipPair"], sched="manual", cuts=lib.SHIP_CUTS, loop=64, workers=4, extra=params)
